@@ -44,21 +44,30 @@ Proof.
   - right. exists e. split; [exact Hr | eapply reads_guard; eauto].
 Qed.
 
-Theorem api_peer sub a b st st' r :
-  WF (sg st) -> cls_is (sg st) a KNS = true -> cls_is (sg st) b KNS = true -> a <> b ->
-  (forall an bn, name_of (sg st) a = Some an -> name_of (sg st) b = Some bn ->
-     name_free (sg st) KLink (Some (an ++ dash ++ bn ++ S "-link")) = true) ->
-  ns_peer sub a b st = (st', r) -> WF (sg st').
+Theorem api_peer fl sub a b st st' r :
+  WF (sg st) -> cls_is (sg st) a KNS = true -> cls_is (sg st) b KNS = true ->
+  (fl_peer_checks fl = false ->
+   a <> b /\ forall an bn, name_of (sg st) a = Some an -> name_of (sg st) b = Some bn ->
+               name_free (sg st) KLink (Some (an ++ dash ++ bn ++ S "-link")) = true) ->
+  ns_peer fl sub a b st = (st', r) -> WF (sg st').
 Proof.
-  intros W Ca Cb Nab NF H. unfold ns_peer in H.
+  intros W Ca Cb Pre H. unfold ns_peer in H.
   peelw H W. rename Hm into Fa. peelw H W. rename Hm into Na.
   peelw H W. rename Hm into Fb. peelw H W. rename Hm into Nb.
-  peelw H W. peelw H W.
   match type of Na with nname ?n = Some ?x => rename x into an; rename n into na end.
   match type of Nb with nname ?n = Some ?x => rename x into bn; rename n into nb end.
-  assert (NF' : name_free (sg st) KLink (Some (an ++ dash ++ bn ++ S "-link")) = true).
-  { apply NF; unfold name_of; [rewrite Fa | rewrite Fb]; assumption. }
-  clear NF. pose proof (wf_ids _ W) as ND.
+  apply bind_reads in H; [| destruct (fl_peer_checks fl); solve [auto 8 with reads]].
+  destruct H as [[sq [[] [Hq [Gq H]]]] | [e [Hr Hg]]]; [| rewrite Hg; exact W].
+  assert (Both : a <> b /\ name_free (sg st) KLink (Some (an ++ dash ++ bn ++ S "-link")) = true).
+  { destruct (fl_peer_checks fl) eqn:FP.
+    - apply bind_inv in Hq as [[s1 [[] [G1 Hq]]]|[e [_ Q]]]; [|discriminate Q]. apply guard_ok_val in G1 as [-> G1].
+      apply bind_inv in Hq as [[s1 [u [G2 Hq]]]|[e [_ Q]]]; [|discriminate Q]. apply check_node_unique_val in G2 as [-> G2].
+      apply guard_ok_val in Hq as [_ ->]. split; [apply negb_true_iff in G1; apply str_eqb_neq; exact G1 | auto].
+    - destruct (Pre eq_refl) as [P1 P2]. split; [exact P1|]. apply P2; unfold name_of; [rewrite Fa | rewrite Fb]; assumption. }
+  destruct Both as [Nab NF']. clear Pre Hq. rewrite <- Gq in *. clear Gq.
+  peelw H W. peelw H W.
+  match type of W with WF (sg ?sc) => rename st into st0; rename sc into st end.
+  pose proof (wf_ids _ W) as ND.
   set (g := sg st) in *.
   pose proof (cls_is_has_id _ _ _ Ca) as Ha. pose proof (cls_is_has_id _ _ _ Cb) as Hb.
   (* the first port *)
